@@ -36,7 +36,8 @@ Agrees(x, g) ==
 
 \* a node id the model does not know: an earlier Add returned a node it should not have created (that
 \* call has been flagged already); the call cannot be replayed, it is flagged too and skipped
-Unknown(e) == e.op \in {"Add", "Op"} /\ e.p > Len(store)
+Unknown(e) == \/ e.op \in {"Add", "Op", "Open"} /\ e.p > Len(store)
+              \/ e.op = "Open" /\ e.p >= 1 /\ e.p <= Len(store) /\ store[e.p].hier # 1
 
 Step ==
   /\ l <= Len(Trace)
@@ -47,7 +48,11 @@ Step ==
           [] e.op = "NewRoot" -> NewRoot(e.name)
           [] e.op = "Add"     -> Add(e.p, e.name)
           [] e.op = "Op"      -> Op(e.kind, e.p)
-     /\ bad' = bad \cup (IF e.op = "reset" \/ Agrees(exp', Got(e)) THEN {} ELSE {<<l, "P">>})
+          [] e.op = "Open"    -> Open(e.p)
+          [] e.op = "Range"   -> Range(e.p)
+     \* (ranging over an iterator: the walk of the tree as it is now - or as it was when the iterator was made)
+     /\ bad' = bad \cup (IF e.op = "reset" \/ Agrees(exp', Got(e))
+                             \/ (e.op = "Range" /\ Got(e).k = "walk" /\ Got(e).walk = iters[e.p].snap) THEN {} ELSE {<<l, "P">>})
                    \cup (IF e.op = "reset" \/ Agrees(res', Got(e)) THEN {} ELSE {<<l, "M">>})
   /\ l' = l + 1
 
